@@ -115,11 +115,20 @@ def Ty.parenIfPlus : Ty → Ty
   | .dynT g segs (b :: bs) => .paren (.dynT g segs (b :: bs))
   | t => t
 
-/-- in front of the `:` of a where-predicate: besides `(A + B): Trait`, a qualified path without a trait is
-parenthesized — `where <T>::Assoc: Trait` would be read as generic parameters on the where-clause -/
+/-- the type ends with a function pointer type that has no return type (`fn(T)`, `&'a fn(T)`, `fn() -> fn(T)`) -/
+def Ty.endsWithFn : Ty → Bool
+  | .bareFn _ none => true
+  | .bareFn _ (some r) => r.endsWithFn
+  | .prefixed _ t => t.endsWithFn
+  | .ref _ _ t => t.endsWithFn
+  | .ptr _ t => t.endsWithFn
+  | _ => false
+
+/-- in front of the `:` of a where-predicate: besides `(A + B): Trait`, a qualified path without a trait and a function
+pointer type without return type are parenthesized — `where <T>::Assoc: Trait` would be read as generic parameters on the where-clause -/
 def Ty.parenInWhere : Ty → Ty
   | .qpath s tg [] rest => .paren (.qpath s tg [] rest)
-  | t => t.parenIfPlus
+  | t => if t.endsWithFn then .paren t else t.parenIfPlus
 
 /-! `expand_self`: replace every type node that *is* `Self` -/
 
